@@ -3,16 +3,18 @@
    cost_upper_bound  from.total_size + 1 + to.total_size  (otherwise EditCollection.bounds() finds a lower bound above
    cost_upper_bound, sets valid = False and answers Range() = (-inf, +inf)).
    Here: for documents WITHOUT multisets (dictionary strategy none: every mapping is a FixedKeyDictNode)
-     guard_bound      the initial upper bound of every edit  a.edits(b)  is at most  size a + size b + ex  and initO is total,
-                      under one of two sufficient conditions (text slack dl of the target's leaves, excess ex):
-                        (dl, ex) = (0, 1): no leaf of the target has a str() longer than its total_size  (only NullNode
-                                           violates this: total_size 0, str() = "None"), any list options;
-                        (dl, ex) = (4, 4): str() of a leaf exceeds its total_size by at most 4, and every list of the source
-                                           has the default options (then a FixedLengthSequenceEdit pairs at most one element);
-     guard_refuted    WITHOUT such a condition the guard is false: {"": ["","","",""]} -> {"": [null,null,null,null]} with
-                      allow_list_edits = False: every "" -> null pair is a Match of cost levenshtein("", "None") = 4 while
-                      the two elements add only 2 to the sizes; the children's lower bound 16 exceeds cost_upper_bound 15.
-                      On the real code this is a crash (ValueError: -inf + inf is undefined) of  graphtage -k -l.
+     guard_all        the initial upper bound of every edit  a.edits(b)  is at most  size a + size b + ex  and initO is total,
+                      for (text slack dl of the target's leaves, excess ex) with 0 <= dl <= ex, 1 <= ex <= 4, provided
+                        ex <= 2 or every list of the source has the default options, and
+                        LeafNode.edits caps the cost of a Match of two leaves (GTgen.EdGen.leaf_match_cost_capped) or no
+                        leaf of the target prints more than dl characters longer than its total_size;
+     guard_none_capped / docs_none_contract_capped   (ex = 1, the cap): NO condition on the documents - the statement for the
+                      current source (repair of defect D41); the flag is a hypothesis discharged in PropC04.v by reflexivity;
+     guard_none_nonull, guard_none_default_lists, docs_none_contract   the two document conditions that suffice WITHOUT the
+                      cap ((dl, ex) = (0, 1): no null in the target; (4, 4): default list options, null prints "None");
+     guard_witness_repaired   the former counter-example {"": ["","","",""]} -> {"": [null,null,null,null]} with
+                      allow_list_edits = False (outside both document conditions; before the repair the children cost 16
+                      against cost_upper_bound 15 and `graphtage -k -l` raised ValueError) now initialises.
    Mappings under auto/match (MultiSetNodes) stay conditional: a MultiSetEdit's initial upper bound is the sum of the
    largest row maxima of its matcher, which is not bounded by the sizes of the two nodes. *)
 From Coq Require Import ZArith List Bool Lia Permutation.
@@ -184,7 +186,10 @@ Hypothesis Hdl : 0 <= dl <= ex.
 Hypothesis Hex : 1 <= ex <= 4.
 
 Definition okA (a : tree) : Prop := wf a = true /\ no_mset a = true /\ (ex <= 2 \/ lists_default a = true).
-Definition okB (b : tree) : Prop := wf b = true /\ no_mset b = true /\ text_slack dl b = true.
+(* the text condition on the target is needed only if LeafNode.edits does not cap the cost of a Match of two leaves by the
+   cost of replacing one with the other (GTgen.EdGen.leaf_match_cost_capped, read off the source on every run) *)
+Definition tsl (b : tree) : Prop := leaf_match_cost_capped = true \/ text_slack dl b = true.
+Definition okB (b : tree) : Prop := wf b = true /\ no_mset b = true /\ tsl b.
 
 (* a key/value pair edit between pairs with equal keys stays 4 below the general bound *)
 Definition slackK (a b : tree) : Z :=
@@ -204,9 +209,10 @@ Proof.
 Qed.
 Lemma okB_lst : forall ale alsl ds d, okB (Lst ale alsl ds) -> In d ds -> okB d /\ is_kvp d = false.
 Proof.
-  intros ale alsl ds d (W & N & T) Hd. cbn in W, N, T.
+  intros ale alsl ds d (W & N & T) Hd. cbn in W, N. unfold tsl in T. cbn [text_slack] in T.
   pose proof (forallb_In _ _ _ W Hd) as W1. apply andb_prop in W1 as [K W1]. apply negb_true_iff in K.
-  split; [|exact K]. split; [exact W1|]. split; [apply (forallb_In _ _ _ N Hd)|apply (forallb_In _ _ _ T Hd)].
+  split; [|exact K]. split; [exact W1|]. split; [apply (forallb_In _ _ _ N Hd)|].
+  destruct T as [T|T]; [left; exact T|right; apply (forallb_In _ _ _ T Hd)].
 Qed.
 Lemma okA_fd : forall cs c, okA (FDict cs) -> In c cs -> okA c /\ is_kvp c = true.
 Proof.
@@ -217,9 +223,10 @@ Proof.
 Qed.
 Lemma okB_fd : forall ds d, okB (FDict ds) -> In d ds -> okB d /\ is_kvp d = true.
 Proof.
-  intros ds d (W & N & T) Hd. cbn in W, N, T. apply andb_prop in W as [W _].
+  intros ds d (W & N & T) Hd. cbn in W, N. unfold tsl in T. cbn [text_slack] in T. apply andb_prop in W as [W _].
   pose proof (forallb_In _ _ _ W Hd) as W1. apply andb_prop in W1 as [K W1].
-  split; [|exact K]. split; [exact W1|]. split; [apply (forallb_In _ _ _ N Hd)|apply (forallb_In _ _ _ T Hd)].
+  split; [|exact K]. split; [exact W1|]. split; [apply (forallb_In _ _ _ N Hd)|].
+  destruct T as [T|T]; [left; exact T|right; apply (forallb_In _ _ _ T Hd)].
 Qed.
 Lemma okA_kvp : forall ake k v, okA (Kvp ake k v) -> okA k /\ okA v /\ is_kvp k = false /\ is_kvp v = false.
 Proof.
@@ -231,23 +238,30 @@ Proof.
 Qed.
 Lemma okB_kvp : forall ake k v, okB (Kvp ake k v) -> okB k /\ okB v /\ is_kvp k = false /\ is_kvp v = false.
 Proof.
-  intros ake k v (W & N & T). cbn in W, N, T.
+  intros ake k v (W & N & T). cbn in W, N. unfold tsl in T. cbn [text_slack] in T.
   apply andb_prop in W as [W Wv]. apply andb_prop in W as [W Kv]. apply andb_prop in W as [Lk Wk].
-  apply andb_prop in N as [Nk Nv]. apply andb_prop in T as [Tk Tv]. apply negb_true_iff in Kv.
+  apply andb_prop in N as [Nk Nv]. apply negb_true_iff in Kv.
   assert (Kk : is_kvp k = false) by (destruct k; try discriminate; reflexivity).
-  repeat split; auto.
+  assert (Tk : tsl k /\ tsl v).
+  { destruct T as [T|T]; [split; left; exact T|]. apply andb_prop in T as [T1 T2]. split; right; assumption. }
+  destruct Tk as [Tk Tv]. repeat split; auto.
 Qed.
 
-Lemma lmc_ub : forall x y, lk x <> KNull -> zlen (ltext y) <= leaf_size y + dl ->
+Lemma lmc_ub : forall x y, lk x <> KNull -> (leaf_match_cost_capped = true \/ zlen (ltext y) <= leaf_size y + dl) ->
   leaf_match_cost x y <= leaf_size x + leaf_size y + ex.
 Proof.
-  intros x y Nx Hy. unfold leaf_match_cost. pose proof (lev_ub (ltext x) (ltext y)).
-  assert (zlen (ltext x) = leaf_size x) by (unfold leaf_size; destruct (lk x); congruence).
-  pose proof (leaf_size_nonneg x). pose proof (leaf_size_nonneg y).
-  destruct (_ && _ && _); lia.
+  intros x y Nx [Hc|Hy].
+  - pose proof (leaf_cap_le_replace x y (leaf_match_cost_raw x y) Hc). unfold leaf_match_cost.
+    pose proof (leaf_size_nonneg x). pose proof (leaf_size_nonneg y). lia.
+  - unfold leaf_match_cost. pose proof (lev_ub (ltext x) (ltext y)).
+    assert (zlen (ltext x) = leaf_size x) by (unfold leaf_size; destruct (lk x); congruence).
+    pose proof (leaf_size_nonneg x). pose proof (leaf_size_nonneg y). pose proof (lev_nonneg (ltext x) (ltext y)).
+    assert (R : 0 <= leaf_match_cost_raw x y <= leaf_size x + leaf_size y + ex)
+      by (unfold leaf_match_cost_raw; destruct (_ && _ && _); lia).
+    pose proof (leaf_cap_spec x y _ (proj1 R)). lia.
 Qed.
 
-Lemma const_ub : forall a b c, text_slack dl b = true -> const_of a b = Some c ->
+Lemma const_ub : forall a b c, tsl b -> const_of a b = Some c ->
   c <= size a + size b + ex - slackK a b.
 Proof.
   intros a b c Hb H. pose proof (size_nonneg a) as Sa. pose proof (size_nonneg b) as Sb.
@@ -255,7 +269,9 @@ Proof.
   destruct a as [x|ale alsl cs|ake k v|amk cs|cs]; cbn [const_of] in H.
   - cbn [slackK]. unfold leaf_script in H.
     destruct b as [y| | | |]; [|destruct (lk x); injection H as <-; lia..].
-    cbn [text_slack] in Hb. apply Z.leb_le in Hb. cbn [size] in *.
+    assert (Hb' : leaf_match_cost_capped = true \/ zlen (ltext y) <= leaf_size y + dl).
+    { destruct Hb as [Hb|Hb]; [left; exact Hb|right]. cbn [text_slack] in Hb. apply Z.leb_le in Hb. exact Hb. }
+    clear Hb. rename Hb' into Hb. cbn [size] in *.
     pose proof (leaf_size_nonneg x). pose proof (leaf_size_nonneg y).
     destruct (lk x) eqn:Kx.
     + injection H as <-. pose proof (lmc_ub x y ltac:(congruence) Hb). lia.
@@ -513,7 +529,7 @@ Proof.
   intros orc a b Wa Wb Na Nb K T.
   destruct (guard_all orc 0 1 ltac:(lia) ltac:(lia) a b) as (s & Es & Bs).
   - split; [exact Wa|]. split; [exact Na|left; lia].
-  - repeat split; assumption.
+  - split; [exact Wb|]. split; [exact Nb|right; exact T].
   - exact K.
   - exists s. split; [exact Es|]. pose proof (slackK_nonneg a b). lia.
 Qed.
@@ -527,10 +543,38 @@ Proof.
   intros orc a b Wa Wb Na Nb K L T.
   destruct (guard_all orc 4 4 ltac:(lia) ltac:(lia) a b) as (s & Es & Bs).
   - split; [exact Wa|]. split; [exact Na|right; exact L].
-  - repeat split; assumption.
+  - split; [exact Wb|]. split; [exact Nb|right; exact T].
   - exact K.
   - exists s. split; [exact Es|]. pose proof (slackK_nonneg a b). lia.
 Qed.
+
+(* (0) the repaired pricing (LeafNode.edits caps the cost of a Match of two leaves by max(total_size) + 1, the cost of a
+       Replace): NO condition on the documents.  The flag is a hypothesis here; PropC04.v discharges it by reflexivity on
+       the constant the translator extracts from the current source. *)
+Theorem guard_none_capped : leaf_match_cost_capped = true ->
+  forall orc a b, wf a = true -> wf b = true -> no_mset a = true -> no_mset b = true -> is_kvp a = is_kvp b ->
+  exists s, initO orc a b = Some s /\ snd (bndU s) <= size a + size b + 1.
+Proof.
+  intros C orc a b Wa Wb Na Nb K.
+  destruct (guard_all orc 0 1 ltac:(lia) ltac:(lia) a b) as (s & Es & Bs).
+  - split; [exact Wa|]. split; [exact Na|left; lia].
+  - split; [exact Wb|]. split; [exact Nb|left; exact C].
+  - exact K.
+  - exists s. split; [exact Es|]. pose proof (slackK_nonneg a b). lia.
+Qed.
+
+Theorem docs_none_contract_capped : leaf_match_cost_capped = true ->
+  forall orc a b, wf a = true -> wf b = true -> no_mset a = true -> no_mset b = true -> is_kvp a = is_kvp b ->
+  exists s, initO orc a b = Some s /\ Contract (UM (sheight s)) s /\ snd (bndU s) <= size a + size b + 1.
+Proof.
+  intros C orc a b Wa Wb Na Nb K. destruct (guard_none_capped C orc a b Wa Wb Na Nb K) as (s & Es & Bs).
+  exists s. split; [exact Es|]. split; [apply (initO_contract orc a b s Es)|exact Bs].
+Qed.
+
+(* the leaf fact behind it: under the cap a Match of two leaves never costs more than replacing one with the other *)
+Lemma leaf_match_cost_le_replace : leaf_match_cost_capped = true ->
+  forall x y, leaf_match_cost x y <= Z.max (leaf_size x) (leaf_size y) + 1.
+Proof. intros C x y. apply leaf_cap_le_replace. exact C. Qed.
 
 (* C04 for documents whose mappings are all FixedKeyDictNodes: unconditional on the model's guard.
    budget_safe a b = text_slack 0 b || (lists_default a && text_slack 4 b)   (MachineGuardSpec.v) *)
@@ -563,31 +607,35 @@ Example docs_none_instance2 :
   exists c, initO [] a b = Some (SColl c).
 Proof. cbv zeta. repeat (split; [reflexivity|]). eexists. vm_compute. reflexivity. Qed.
 
-(* ---------------------------------------------------------------- without a condition the guard is FALSE (defect D41)
-   {"": ["","","",""]} -> {"": [null,null,null,null]}, allow_list_edits = False, FixedKeyDictNodes:
-   the key/value pair edit costs exactly 16 (four Match("" -> null) of cost levenshtein("", "None") = 4) while
-   cost_upper_bound = 7 + 1 + 7 = 15: EditCollection.bounds() sets valid = False and answers Range(). *)
+(* ---------------------------------------------------------------- the former counter-example (defect D41, repaired)
+   {"": ["","","",""]} -> {"": [null,null,null,null]}, allow_list_edits = False, FixedKeyDictNodes, lies outside both
+   document conditions (budget_safe = false).  Before the repair every Match("" -> null) cost levenshtein("", "None") = 4,
+   the key/value pair edit 16 > cost_upper_bound = 7 + 1 + 7 = 15: the EditCollection invalidated itself and diff() raised
+   ValueError.  With the cap each pair costs 1, the pair edit 4, and the documents initialise. *)
 Definition ex_estr : tree := Leaf (Build_leaf KStr [] 0 0).
 Definition ex_guard_a : tree := FDict [Kvp false ex_estr (Lst false true [ex_estr; ex_estr; ex_estr; ex_estr])].
 Definition ex_guard_b : tree := FDict [Kvp false ex_estr (Lst false true [ex_null; ex_null; ex_null; ex_null])].
 
-Theorem guard_refuted :
+Theorem guard_witness_repaired : leaf_match_cost_capped = true ->
   wf ex_guard_a = true /\ wf ex_guard_b = true /\ no_mset ex_guard_a = true /\ no_mset ex_guard_b = true /\
-  is_kvp ex_guard_a = is_kvp ex_guard_b /\ null_as_None ex_guard_b = true /\ text_slack 4 ex_guard_b = true /\
+  is_kvp ex_guard_a = is_kvp ex_guard_b /\ null_as_None ex_guard_b = true /\
   budget_safe ex_guard_a ex_guard_b = false /\
   size ex_guard_a + 1 + size ex_guard_b = 15 /\
-  (forall orc, exists s, initO orc (Kvp false ex_estr (Lst false true [ex_estr; ex_estr; ex_estr; ex_estr]))
-                                   (Kvp false ex_estr (Lst false true [ex_null; ex_null; ex_null; ex_null])) = Some s /\
-                         bndU s = (16, 16)) /\
-  (forall orc, initO orc ex_guard_a ex_guard_b = None).
+  (forall orc, exists s, initO orc ex_guard_a ex_guard_b = Some s /\ Contract (UM (sheight s)) s /\ snd (bndU s) <= 15).
 Proof.
-  repeat (split; [reflexivity|]). split.
-  - intro orc. eexists. split; [vm_compute; reflexivity|reflexivity].
-  - intro orc. vm_compute. reflexivity.
+  intro C. repeat (split; [reflexivity|]). intro orc.
+  destruct (docs_none_contract_capped C orc ex_guard_a ex_guard_b) as (s & Es & Cs & Bs); try reflexivity.
+  exists s. split; [exact Es|]. split; [exact Cs|]. exact Bs.
 Qed.
+(* ... and by evaluation on the current source: the pair edit now costs 4 *)
+Example guard_witness_value :
+  exists s, initO [] (Kvp false ex_estr (Lst false true [ex_estr; ex_estr; ex_estr; ex_estr]))
+                     (Kvp false ex_estr (Lst false true [ex_null; ex_null; ex_null; ex_null])) = Some s /\ bndU s = (4, 4).
+Proof. eexists. split; [vm_compute; reflexivity|reflexivity]. Qed.
 
 Print Assumptions docs_none_contract.
-Print Assumptions guard_refuted.
+Print Assumptions docs_none_contract_capped.
+Print Assumptions guard_witness_repaired.
 
 (* ---------------------------------------------------------------- Apple plist roots (MachinePlist.v):
    the EditCollection of two PLISTNodes over [Match 0; root edit], whenever the root pair is in the domain of initO and
